@@ -235,10 +235,11 @@ func (d *decodingReader) decode(f frame.Frame) error {
 			}
 			return err
 		}
-		// This is guaranteed by gob, but it seems worthy of some defensive programming here.
-		// It's also an extra check against the correctness of the codec.
-		if pHdr.Data != sh.Data {
-			panic("gob reallocated a slice")
+		// Gob decodes in place as long as the encoded column has the
+		// batch's length; a column of any other length means that the
+		// stream is corrupt.
+		if pHdr.Data != sh.Data || pHdr.Len != sh.Len {
+			return errors.E(errors.Integrity, fmt.Errorf("column %d has %d rows, batch length is %d", col, pHdr.Len, sh.Len))
 		}
 	}
 	sum := d.crc.Sum32()
